@@ -63,7 +63,7 @@ Proof. vm_compute. split; reflexivity. Qed.
 Definition attrs_wire_ok (a : attrs) : bool := forallb (fun kv => any_ok (snd kv)) a.
 Definition input_wire_ok (i : input) : bool :=
   match i with
-  | InOtlp b => forallb (fun r => attrs_wire_ok (r_attrs r) && forallb span_wire_ok (List.concat (r_scopes r))) b
+  | InOtlp b => forallb (fun r => attrs_wire_ok (res_attrs r) && forallb span_wire_ok (List.concat (r_scopes r))) b
   | InZipkin _ _ => true
   end.
 
@@ -113,10 +113,9 @@ Proof.
     cbn [option_map] in Hd. inversion Hd; subst rows. apply in_concat in Hin. destruct Hin as (rs & Hrs & Hin).
     destruct (mapM_in _ _ _ _ Em Hrs) as (r & Hr & Hres).
     rewrite forallb_forall in Hok. specialize (Hok r Hr). apply andb_true_iff in Hok. destruct Hok as [Hra Hss].
-    unfold otlp_res in Hres. destruct (r_has_res r).
-    + destruct (mapM_in _ _ _ _ Hres Hin) as (s & Hs & Hspan).
-      rewrite forallb_forall in Hss. apply (otlp_span_wire_ok (r_attrs r) s sr p Hra (Hss s Hs) Hspan Hp).
-    + destruct (List.concat (r_scopes r)); [|discriminate]. inversion Hres; subst rs. destruct Hin.
+    unfold otlp_res in Hres. cbn [fixed q_nil_resource negb] in Hres. rewrite orb_true_r in Hres.
+    destruct (mapM_in _ _ _ _ Hres Hin) as (s & Hs & Hspan).
+    rewrite forallb_forall in Hss. apply (otlp_span_wire_ok (res_attrs r) s sr p Hra (Hss s Hs) Hspan Hp).
   - apply In_nth_error in Hin. destruct Hin as [k Hk].
     destruct (zipkin_payload_is_own_text nd es rows Hd k sr Hk) as [Hpl _]. rewrite Hpl in Hp. discriminate.
 Qed.
